@@ -109,11 +109,28 @@ def valid(case):
 def check(case):
     out = Outcome()
     a, b = case['a'], case['b']
-    la, lb = loose(a), loose(b)
     fam = {'family': 'json', 'a': a, 'b': b, 'ds': case.get('ds', 'auto'), 'le': 'on'}
     with guard('build+diff'):
         ta, tb = gen.build(fam, 'a'), gen.build(fam, 'b')
         d = ta.diff(tb)
+    verify(case, out, d, a, b, '')
+    if out.failures:
+        return out
+    # the result of diff() is a tree equal to the first document: diffed once more (against the second document again, or
+    # against a fresh copy of the first) and rendered, it must again read back as exactly the two documents compared
+    again = case.get('rediff') or ('a', 'b')[sum(map(ord, repr(a)[:30])) % 2]
+    other = a if again == 'a' else b
+    with guard('diff of a diff result'):
+        d2 = d.diff(gen.build(fam, again))
+    nt = out.nontrivial
+    verify(case, out, d2, a, other, f'(a.diff(b) diffed again with {again}) ')
+    out.nontrivial = nt
+    out.label('rediff:' + again)
+    return out
+
+
+def verify(case, out, d, a, b, tag):
+    la, lb = loose(a), loose(b)
     with guard('render'):
         text = render.render_json(d, join_lists=bool(case.get('jl')), join_dict_items=bool(case.get('jd')))
     chars = render.classify(text)
@@ -122,32 +139,33 @@ def check(case):
     try:
         toks = render.lex(chars)
     except render.LexError as e:
-        out.fail('render-not-lexable', f"{e}; a={a!r} b={b!r}; text={text[:200]!r}")
+        out.fail('render-not-lexable', f"{tag}{e}; a={a!r} b={b!r}; text={text[:200]!r}")
         return out
     mixed_string = any(kind == 'str' and len({k for u in cs for _, k in u}) > 1 for kind, cs in toks)
     marked_container = any(kind in '{}[]' and cs[0][1] in 'RI' for kind, cs in toks)
     out.nontrivial = 'R' in classes and 'I' in classes and (mixed_string or marked_container)
-    out.label('ds:' + case.get('ds', 'auto'), 'jl' if case.get('jl') else 'nl-lists', 'jd' if case.get('jd') else 'nl-dicts')
-    if mixed_string:
-        out.label('mixed-string')
-    if marked_container:
-        out.label('marked-container')
+    if not tag:
+        out.label('ds:' + case.get('ds', 'auto'), 'jl' if case.get('jl') else 'nl-lists', 'jd' if case.get('jd') else 'nl-dicts')
+        if mixed_string:
+            out.label('mixed-string')
+        if marked_container:
+            out.label('marked-container')
     if 'X' in classes:
-        out.fail('both-marks-on-one-character', f"a={a!r} b={b!r}; text={text[:200]!r}")
+        out.fail('both-marks-on-one-character', f"{tag}a={a!r} b={b!r}; text={text[:200]!r}")
         return out
     for drop, want, doc, name in (('I', la, a, 'first'), ('R', lb, b, 'second')):
         try:
             got = render.parse(render.project(toks, drop))
         except render.LexError as e:
-            out.fail(f'{name}-document-not-readable', f"dropping {'inserted' if drop == 'I' else 'removed'} text: {e}; a={a!r} b={b!r}; "
+            out.fail(f'{name}-document-not-readable', f"{tag}dropping {'inserted' if drop == 'I' else 'removed'} text: {e}; a={a!r} b={b!r}; "
                                                      f"text={text[:300]!r}")
             continue
         if loose(got) != want:
-            out.fail(f'{name}-document-differs', f"dropping {'inserted' if drop == 'I' else 'removed'} text reads back {got!r}, "
+            out.fail(f'{name}-document-differs', f"{tag}dropping {'inserted' if drop == 'I' else 'removed'} text reads back {got!r}, "
                                                 f"{name} document is {doc!r}; text={text[:300]!r}")
     if marks and la == lb:
-        out.fail('marks-on-equal-documents', f"a={a!r} b={b!r}; text={text[:200]!r}")
+        out.fail('marks-on-equal-documents', f"{tag}a={a!r} b={b!r}; text={text[:200]!r}")
     if not marks and la != lb:
-        out.fail('no-marks-on-different-documents', f"a={a!r} b={b!r}; text={text[:200]!r}")
+        out.fail('no-marks-on-different-documents', f"{tag}a={a!r} b={b!r}; text={text[:200]!r}")
     out.info = {'marks': marks, 'len': len(text)}
     return out
